@@ -404,6 +404,7 @@ type node struct {
 	gaps        []gapAdoption    // reorganisations adopted below a reported LIB through the restart veto gap
 	maxLibStale bool             // maxLib was a stale report (never on this node's main chain)
 	libClass    map[*sblk]string // off-chain LIB block -> the class its adoption as LIB showed
+	abandoned   map[*sblk]bool   // blocks this node removed from its main chain by a reorganisation the loaded veto allowed
 }
 
 func (n *node) selfID() string {
@@ -596,6 +597,14 @@ func (n *node) arrive(b *sblk) int {
 			}
 			n.gaps = append(n.gaps, g)
 		}
+		if !gap {
+			if n.abandoned == nil {
+				n.abandoned = map[*sblk]bool{}
+			}
+			for _, x := range n.main[root.no+1:] {
+				n.abandoned[x] = true
+			}
+		}
 		n.main = append([]*sblk{}, n.main[:root.no+1]...)
 		for i := len(nb) - 1; i >= 0; i-- {
 			n.main = append(n.main, nb[i])
@@ -648,6 +657,12 @@ func (n *node) clone() *node {
 	}
 	c.hist = append([]string{}, n.hist...)
 	c.gaps = append([]gapAdoption{}, n.gaps...)
+	if n.abandoned != nil {
+		c.abandoned = make(map[*sblk]bool, len(n.abandoned))
+		for k, v := range n.abandoned {
+			c.abandoned[k] = v
+		}
+	}
 	if n.libClass != nil {
 		c.libClass = make(map[*sblk]string, len(n.libClass))
 		for k, v := range n.libClass {
